@@ -111,12 +111,28 @@ def check (c : CodeBody) : Bool :=
   let reach := computeReach c
   checkCfg c reach (computeIns c reach)
 
+/-- "a value-returning body returns a value on every reachable path": no reachable `return` without a value -/
+def retsOk (reach : List Bool) : Nat → List BasicBlock → Bool
+  | _, [] => true
+  | i, b :: rest =>
+    (if reach.getD i false then
+       match b.terminator with
+       | some (.ret .void) => false
+       | _ => true
+     else true) && retsOk reach (i + 1) rest
+
+/-- the check of a whole function body as it appears in the support header -/
+def checkFn (valueReturning : Bool) (c : CodeBody) : Bool :=
+  let reach := computeReach c
+  checkCfg c reach (computeIns c reach) && (!valueReturning || retsOk reach 0 c.blocks)
+
 /-- C06 speaks of *compiler-introduced* temporaries: variables the user declared without initialiser (`let x: T`)
     are exempt — reading one before assigning it is the user's error (and outside C01's defined-ness too).
     Exempting = treating them like parameters: they are moved to the front … which would renumber locals, so
     instead every read of an exempt local is erased before the check. -/
 def eraseOperand (exempt : List Nat) : Operand → Operand
-  | .local n t => if exempt.contains n then .void else .local n t
+  -- an exempt read becomes a constant: it still is a VALUE (so `return v` keeps returning one) and reads nothing
+  | .local n t => if exempt.contains n then .const (.bool false) else .local n t
   | a => a
 
 def eraseRvalue (ex : List Nat) : Rvalue → Rvalue
